@@ -47,6 +47,25 @@ pub fn check_value(v: &RVal, rec: &mut Rec) -> Verdict {
     if r.is_fail() {
         return r;
     }
+    // decoding the same text from a reader that hands it out in pieces (a socket, a pipe) is decoding too
+    {
+        use crate::gen::readers::{PlanReader, ReaderPlan};
+        let k = key_of(&text);
+        let plan = ReaderPlan { chunks: vec![1 + (k % 7) as u8, 1 + ((k >> 8) % 61) as u8, 1 + ((k >> 16) % 3) as u8], interrupt_every: ((k >> 24) % 4) as u8, ..ReaderPlan::default() };
+        let r2 = crate::runner::fueled(text.len(), || {
+            let mut rd = PlanReader::new(text.as_bytes(), &plan);
+            libhaystack::encoding::zinc::decode::parser::Parser::make(&mut rd).and_then(|mut p| p.parse_value())
+        });
+        match r2 {
+            Ok(Ok(b2)) => {
+                if let Some(x) = diff(&project(&back), &project(&b2)).diffs.first() {
+                    return Verdict::fail(format!("C01:zinc-rt:reader:diff:{}:{}", x.code, shape(v)), format!("decoded from a reader in pieces {:?}: {} at {}: {} (text {:?})", plan.chunks, x.code, x.path, x.detail, trunc(&text, 200)));
+                }
+            }
+            Ok(Err(e)) => return Verdict::fail(format!("C01:zinc-rt:reader:decode-error:{}", shape(v)), format!("the text decodes from a string but not from a reader that delivers it in pieces {:?}: {e} (text {:?})", plan.chunks, trunc(&text, 200))),
+            Err(p) => return Verdict::fail(format!("C01:zinc-rt:reader:{}:{}", crate::runner::panic_sig(&p), shape(v)), p.msg),
+        }
+    }
     // 2. the same value embedded as a list element (exercises `<< >>` for grids)
     let wrapped = RVal::List(vec![v.clone()]);
     let hv2 = build(&wrapped);
@@ -151,7 +170,7 @@ fn deep_ladder(ctx: &mut Ctx) {
 }
 
 pub fn run(ctx: &mut Ctx) {
-    ctx.rule("generated: well-formed values of all 18 kinds (proptest, structured); oracle: decode(encode(v)) strictly equals v (RVal projection: kind, f64 bits up to sign of zero, unit ids, every string, Ref dis, instant+offset+city, collections in order; Null tag == absent tag); non-trivial: not a singleton/Bool kind; distinct by Zinc text; every decode is preceded by the (rejected) decode of two damaged prefixes of the same text on the same thread; plus a deep-nesting ladder: lists / dicts / grids in cells / grids in grid meta / alternating, 18 depths from 1 to 250 (the decoder's documented bound is 256 levels)");
+    ctx.rule("generated: well-formed values of all 18 kinds (proptest, structured); oracle: decode(encode(v)) strictly equals v (RVal projection: kind, f64 bits up to sign of zero, unit ids, every string, Ref dis, instant+offset+city, collections in order; Null tag == absent tag); non-trivial: not a singleton/Bool kind; distinct by Zinc text; the text is also decoded through Parser::make over a reader that delivers it in pieces of three generated sizes; every decode is preceded by the (rejected) decode of two damaged prefixes of the same text on the same thread; plus a deep-nesting ladder: lists / dicts / grids in cells / grids in grid meta / alternating, 18 depths from 1 to 250 (the decoder's documented bound is 256 levels)");
     ctx.assume("chrono / chrono-tz give the true zone rules; values are built through public constructors only");
     let depth = ctx.tier.pick(3, 5) as u32;
     let total = ctx.tier.pick(64_000, 1_600_000);
